@@ -47,6 +47,8 @@ type Faults struct {
 	// WriteErrAt >= 0: the Write call that would start at or cover this offset fails with
 	// 0 bytes accepted if it starts exactly there, else like WriteCutAt.
 	CutErr error
+	// WriteDelayFn, if set, is asked before every driver-side write how long the transport takes to accept it.
+	WriteDelayFn func() time.Duration
 	// StallWritesAt >= 0: from this offset on, writes block until the write deadline / close.
 	StallWritesAt int64
 	// FailSetWriteDeadline: every SetWriteDeadline call fails after this many successes (-1 = never).
@@ -160,6 +162,11 @@ func (c *Conn) Write(p []byte) (int, error) {
 	atomic.AddInt64(&Activity, 1)
 	if c.driverSide && c.faults.WriteDelay > 0 {
 		time.Sleep(c.faults.WriteDelay)
+	}
+	if c.driverSide && c.faults.WriteDelayFn != nil {
+		if d := c.faults.WriteDelayFn(); d > 0 {
+			time.Sleep(d)
+		}
 	}
 	c.mu.Lock()
 	if c.closed {
